@@ -1,10 +1,11 @@
 import Scion.Model.Ohp
 import Scion.Gen.R2Ohp
+import Scion.Proofs.R2OhpCodec
 /-! C12 — one-hop paths are issued and completed only between the right neighbours.
     Theorems about `Scion.Ohp.process` (model of `processOHP`), for every configuration, every MAC
     function, every packet. -/
 namespace Scion.C12
-open Scion.Ohp Scion.Util
+open Scion.Ohp Scion.Util Scion.R2OhpCodec
 
 /-- the path the issuing router sends on: SegID accumulated with the first hop's MAC -/
 def issued (path : Path) : Path := { path with info := updateSegID path.info path.first.mac }
@@ -203,6 +204,80 @@ theorem bfd_send_is_instance (c : Cfg) (mac : Mac) (p : Pkt) (ifID ts : Nat)
     (hs : p.srcIA = c.localIA) (hn : c.nb ifID ≠ 0) (hdst : p.dstIA = c.nb ifID) :
     process c mac p = .fwd ifID (issued (bfdSendPath mac ifID ts)) :=
   (ohp_out_iff c mac p ifID _ h0).mpr ⟨_, hd, rfl, hpl, hs, hn, hdst, rfl, rfl, rfl⟩
+
+/-- a forwarded packet decoded to some path, and every field of that path fits its wire width -/
+theorem fwd_decoded (c : Cfg) (mac : Mac) (p : Pkt) (e : Nat) (q : Path) (h : process c mac p = .fwd e q) :
+    ∃ path, decodeStage p = some path ∧ InfoWF path.info ∧ HopWF path.first ∧ HopWF path.second := by
+  have : ∃ path, decodeStage p = some path := by
+    by_cases h0 : p.ingress = 0
+    · obtain ⟨path, hd, _⟩ := (ohp_out_iff c mac p e q h0).mp h; exact ⟨path, hd⟩
+    · obtain ⟨path, hd, _⟩ := (ohp_in_iff c mac p e q h0).mp h; exact ⟨path, hd⟩
+  obtain ⟨path, hd⟩ := this
+  refine ⟨path, hd, ?_⟩
+  unfold decodeStage at hd
+  split at hd
+  · cases hd
+  · split at hd
+    · cases hd
+    · split at hd
+      · cases hd
+      · rename_i path' hdp
+        split at hd
+        · cases hd
+        · injection hd with hd; subst hd
+          exact decodePath_wf _ _ hdp
+
+/-- the wire form of what the issuing router sends decodes, at the receiving router, to the same path -/
+theorem decodeStage_of_wire (p : Pkt) (q : Path) (hi : InfoWF q.info) (h1 : HopWF q.first) (h2 : HopWF q.second)
+    (hreg : p.region = encodePath q) (hh : p.hdrBytes = 12 + p.addrLen + 32) (hd : p.hdrBytes ≤ p.dataLen) :
+    decodeStage p = some q := by
+  have hl : (encodePath q).length = 32 := by simp [encodePath, encodeInfo_length, encodeHop_length]
+  unfold decodeStage
+  rw [if_neg (by omega), if_neg (by omega)]
+  have h32 : p.hdrBytes - 12 - p.addrLen = 32 := by omega
+  rw [h32, hreg, List.take_of_length_le (by omega), decodePath_encodePath q hi h1 h2]
+  simp [PathLen]
+
+/-- **The reversed one-hop path is accepted by both routers — on the wire.** As `ohp_reverse_accepted`, with
+    the link between the two routers made explicit: the path bytes B receives are the serialisation of
+    the path A forwarded. -/
+theorem ohp_reverse_accepted_wire (cA cB : Cfg) (macA macB : Mac) (pA pB : Pkt) (eA eB : Nat) (q1 q2 : Path)
+    (hA0 : pA.ingress = 0) (hB0 : pB.ingress ≠ 0) (hcfg : cA.nb 0 = 0)
+    (hA : process cA macA pA = .fwd eA q1)
+    (hB : process cB macB pB = .fwd eB q2)
+    (hwire : pB.region = encodePath q1) :
+    reverseHopOk macB 0 q2.info q2.second ∧ q2.second.consIngress = pB.ingress ∧
+      reverseHopOk macA eA q2.info q2.first := by
+  obtain ⟨path, hdA, hwi, hw1, hw2⟩ := fwd_decoded cA macA pA eA q1 hA
+  obtain ⟨_, _, _, _, _, _, _, _, _, hq1⟩ := (ohp_out_iff cA macA pA eA q1 hA0).mp hA
+  have hq1' : q1 = issued path := by
+    obtain ⟨path', hd', _, _, _, _, _, _, _, hq⟩ := (ohp_out_iff cA macA pA eA q1 hA0).mp hA
+    rw [hdA] at hd'; cases hd'; exact hq
+  have hlen := ohp_hdrlen_exact cB macB pB eB q2 hB
+  have hlink : decodeStage pB = some q1 := by
+    apply decodeStage_of_wire pB q1 _ _ _ hwire hlen.1 hlen.2
+    · rw [hq1']; exact updateSegID_wf _ _ hwi
+    · rw [hq1']; exact hw1
+    · rw [hq1']; exact hw2
+  exact ohp_reverse_accepted cA cB macA macB pA pB eA eB q1 q2 hA0 hB0 hcfg hA hB hlink
+
+/-- the BFD sender's packet as bytes: a packet whose path bytes are the serialisation of `bfdSendPath`
+    (interface and timestamp within their wire width, MAC function returning at least six bytes) is
+    forwarded by `processOHP` under the conditions of `bfd_send_is_instance` -/
+theorem bfd_send_is_instance_wire (c : Cfg) (mac : Mac) (p : Pkt) (ifID ts : Nat)
+    (hif : ifID < 65536) (hts : ts < 4294967296) (hmac : ∀ x, 6 ≤ (mac x).length)
+    (h0 : p.ingress = 0) (hreg : p.region = encodePath (bfdSendPath mac ifID ts))
+    (hh : p.hdrBytes = 12 + p.addrLen + 32) (hd : p.hdrBytes ≤ p.dataLen)
+    (hpl : p.payloadLen = p.dataLen - p.hdrBytes)
+    (hs : p.srcIA = c.localIA) (hn : c.nb ifID ≠ 0) (hdst : p.dstIA = c.nb ifID) :
+    process c mac p = .fwd ifID (issued (bfdSendPath mac ifID ts)) := by
+  apply bfd_send_is_instance c mac p ifID ts h0 _ hpl hs hn hdst
+  apply decodeStage_of_wire p _ _ _ _ hreg hh hd
+  · exact ⟨by simp [bfdSendPath], by simpa [bfdSendPath] using hts⟩
+  · refine ⟨by simp [bfdSendPath], by simp [bfdSendPath], by simpa [bfdSendPath] using hif, ?_⟩
+    have := hmac (macInput 0 ts 63 0 ifID)
+    simp [bfdSendPath, hopMac, List.length_take]; omega
+  · exact ⟨by simp [bfdSendPath], by simp [bfdSendPath], by simp [bfdSendPath], by simp [bfdSendPath]⟩
 
 /-- T3: sizes the model uses are the ones in the source -/
 theorem gen_consts :
